@@ -11,6 +11,7 @@
 #include "common/vh.hpp"
 #include "serial_codec.hpp"
 #include "serial_objects.hpp"
+#include "serial_probes.hpp"
 
 #include <filesystem>
 #include <iostream>
@@ -241,6 +242,8 @@ int main(int argc, char** argv) {
         SERIAL_GRAPH_MENU(X)
 #undef X
         so::runObjects(c.rng, plog, c.pstats, thorough, outdir);
+        sp::probeSlaveMode(c.rng, plog, c.pstats, thorough ? 60 : 6);
+        sp::probeRestartNetworkPressures(c.rng, plog, c.pstats, thorough ? 40 : 4, outdir);
         std::ofstream f(outdir + "/prop_stats.json");
         f << "{\n  \"checked\": " << plog.checked << ",\n  \"failed\": " << plog.failed;
         for (auto& kv : c.pstats) f << ",\n  \"" << kv.first << "\": " << kv.second;
